@@ -5,3 +5,4 @@ open Cache
 #print axioms C11_cycles
 #print axioms C11_scan_skip_sound
 #print axioms C11_default_backend_config_unaltered
+#print axioms C11_scan_stays_enabled
